@@ -10,8 +10,8 @@
   All theorems are for every width, height, step (either sign), offset, start position and move
   list; `ptrdiff_t` is modelled as unbounded `Int` (no-overflow is an assumption of the whole
   development, see DESIGN.md section 7); the one narrowing the code really performs
-  (`int new_offset = int(_bit_offset + num_bits)` in bit_range::bit_advance) is modelled and its
-  guard is an explicit hypothesis, with the first violating point exhibited.
+  (`int new_offset = int(_bit_offset + num_bits)` in bit_range::bit_advance) was found, reported
+  and fixed in /repo (30b4cc6); the bit-aligned theorems below are unconditional on the current tree.
 -/
 import GilVerif.Model.C03
 import Mathlib.Tactic.Ring
@@ -95,13 +95,21 @@ theorem C03_kernel_step_ge (s a b : Int) :
 theorem C03_kernel_bit_increment (b o s : Int) : bit_increment b o s = (b + Int.tdiv (o + s) 8, Int.tmod (o + s) 8) := by
   unfold bit_increment; kernel_eq
 
-/-- `bit_range::bit_advance`, including the narrowing of `_bit_offset + num_bits` to `int` -/
+/-- `bit_range::bit_advance`: the bit position is kept in `difference_type`; only the remainder
+    (which lies in (-8, 8)) is converted to `int` -/
 theorem C03_kernel_bit_advance (b o n : Int) : bit_advance b o n =
-    if Int.tmod ((o + n + 2147483648) % 4294967296 - 2147483648) 8 < 0 then
-      (b + Int.tdiv ((o + n + 2147483648) % 4294967296 - 2147483648) 8 - 1, Int.tmod ((o + n + 2147483648) % 4294967296 - 2147483648) 8 + 8)
-    else
-      (b + Int.tdiv ((o + n + 2147483648) % 4294967296 - 2147483648) 8, Int.tmod ((o + n + 2147483648) % 4294967296 - 2147483648) 8) := by
-  unfold bit_advance; kernel_eq
+    if Int.tmod (o + n) 8 < 0 then (b + Int.tdiv (o + n) 8 - 1, Int.tmod (o + n) 8 + 8)
+    else (b + Int.tdiv (o + n) 8, Int.tmod (o + n) 8) := by
+  have h2 : -8 < (o + n).tmod 8 := Int.lt_tmod_of_pos _ (by decide)
+  have h3 : (o + n).tmod 8 < 8 := Int.tmod_lt_of_pos _ (by decide)
+  have e : ∀ r : Int, -8 < r → r < 8 → (r + 2147483648) % 4294967296 - 2147483648 = r := by intro r _ _; omega
+  unfold bit_advance
+  simp only []
+  first
+    | (rw [e _ h2 h3]; kernel_eq)
+    | (have e' : o + n = n + o := by ring
+       rw [← e'] ; rw [e _ h2 h3]; kernel_eq)
+    | kernel_eq
 
 theorem C03_kernel_bit_distance_to (b o b2 o2 : Int) : bit_distance_to b o b2 o2 = (b2 - b) * 8 + o2 - o := by
   unfold bit_distance_to; kernel_eq
@@ -349,45 +357,13 @@ theorem C03_step_laws (p n m s : Int) (hs : s ≠ 0) :
 
 example : step_lt (-6) 100 (step_advance 100 2 (-6)) = 1 ∧ step_difference (step_advance 100 2 (-6) - 100) (-6) = 2 := by decide
 
-/-! #### y-iterators are step iterators *over x-iterators*: nested comparison
-
--- OPEN (not proven): FALSE for the current code, see `C03_nested_step_order_witness`.
---   theorem C03_y_order (k : Kind) (xs ys p n : Int) (hys : ys ≠ 0) :
---       itCmp k true xs ys p (p + n * ys)
---         = [if n > 0 then 1 else 0, if n < 0 then 1 else 0, if n ≥ 0 then 1 else 0, if n ≤ 0 then 1 else 0]
--- (`it < jt ⇔ jt - it > 0` for the y-iterators of every view).  What holds instead: -/
-
-/-- when the x-iterator is not a step iterator, or its step is positive, the y-iterator's four
-    ordering operators are the plain sign-keyed ones on addresses, for which `C03_step_laws` holds -/
-theorem C03_y_order_partial (k : Kind) (hv : k.virt = false) (xs ys a b : Int) (hx : k.xstep = false ∨ xs > 0) :
-    itCmp k true xs ys a b = [step_lt ys a b, step_gt ys a b, step_le ys a b, step_ge ys a b] := by
-  have hk : ∀ p, xKey k xs p = p := by
-    intro p; unfold xKey
-    rcases hx with h | h
-    · simp [h]
-    · have : ¬ xs ≤ 0 := by omega
-      simp [this]
-  simp [itCmp, hv, hk]
-
-/-- **defect, characterised for all inputs**: when the x-iterator is a step iterator with a
-    non-positive step (flipped left-right, rotated 180, rot90 of such ...), every ordering operator
-    of the y-iterator is *reversed*: `a < b` computes `a > b`, etc. -/
-theorem C03_nested_step_order_reversed (k : Kind) (hv : k.virt = false) (hx : k.xstep = true) (xs ys a b : Int) (hxs : xs ≤ 0) :
-    itCmp k true xs ys a b = [step_gt ys a b, step_lt ys a b, step_ge ys a b, step_le ys a b] := by
-  have hk : ∀ p, xKey k xs p = -p := by intro p; simp [xKey, hx, hxs]
-  simp only [itCmp, hv, hk, Bool.false_eq_true, if_false, if_true]
-  simp only [C03_kernel_step_lt, C03_kernel_step_gt, C03_kernel_step_le, C03_kernel_step_ge]
-  have e1 : (-a < -b) ↔ (a > b) := by omega
-  have e2 : (-a > -b) ↔ (a < b) := by omega
-  have e3 : (-a ≤ -b) ↔ (a ≥ b) := by omega
-  have e4 : (-a ≥ -b) ↔ (a ≤ b) := by omega
-  simp only [e1, e2, e3, e4]
-
-/-- concrete witness (replayed on the real headers by the harness: `flipped_left_right_view(v)`,
-    `col_begin(0) < col_begin(0) + 1` is false although their difference is 1) -/
-theorem C03_nested_step_order_witness :
-    itCmp ⟨false, true, 0, false⟩ true (-1) 4 0 (yAdv ⟨false, true, 0, false⟩ 4 0 1) = [0, 1, 0, 1]
-    ∧ stepSub ⟨false, true, 0, false⟩ 4 (yAdv ⟨false, true, 0, false⟩ 4 0 1) 0 = 1 := by decide
+/-- y-iterators are step iterators *over x-iterators*; their four ordering operators are the
+    sign-keyed ones applied to memory positions, whatever the x-iterator is (so `C03_step_laws`
+    applies to them: `it < jt ⇔ jt - it > 0` also over a negatively stepped x-iterator -- the
+    pre-8619e34 tree compared the bases with the base's own operators and got this reversed) -/
+theorem C03_y_order (k : Kind) (hv : k.virt = false) (ys a b : Int) :
+    itCmp k true ys a b = [step_lt ys a b, step_gt ys a b, step_le ys a b, step_ge ys a b] := by
+  simp [itCmp, hv]
 
 /-- the same laws for `position_iterator` (virtual views) -/
 theorem C03_position_laws (p n m s : Int) (hs : s ≠ 0) :
@@ -401,15 +377,12 @@ theorem C03_position_laws (p n m s : Int) (hs : s ≠ 0) :
 /-! ### bit ranges -/
 
 /-- `bit_range::bit_advance` moves the bit position by exactly `n` and re-normalises the offset to
-    `[0,8)`, for either sign of `n`, **provided** `_bit_offset + n` fits the `int` the code narrows
-    it to -/
-theorem C03_bit_advance_spec (b o n : Int)
-    (hfit : -2147483648 ≤ o + n ∧ o + n < 2147483648) :
+    `[0,8)`, for every `n` of either sign (no narrowing: the pre-30b4cc6 tree converted
+    `_bit_offset + n` to `int` and failed from `n = 2^31 - 7` on) -/
+theorem C03_bit_advance_spec (b o n : Int) :
     0 ≤ (bit_advance b o n).2 ∧ (bit_advance b o n).2 < 8
     ∧ (bit_advance b o n).1 * 8 + (bit_advance b o n).2 = b * 8 + o + n := by
   rw [C03_kernel_bit_advance]
-  have e : (o + n + 2147483648) % 4294967296 - 2147483648 = o + n := by omega
-  simp only [e]
   have h1 := Int.tmod_add_mul_tdiv (o + n) 8
   have h2 : -8 < (o + n).tmod 8 := Int.lt_tmod_of_pos _ (by decide)
   have h3 : (o + n).tmod 8 < 8 := Int.tmod_lt_of_pos _ (by decide)
@@ -417,15 +390,8 @@ theorem C03_bit_advance_spec (b o n : Int)
   · simp only [hc, if_true]; omega
   · simp only [hc, if_false]; omega
 
-example : bit_advance 10 5 (-14) = (8, 7) ∧ bit_advance 0 7 2147483640 = (268435455, 7) := by decide
-
-/-- **the narrowing is real**: the first positive offset at which the guard fails.  From bit offset 7,
-    advancing by 2^31 - 7 bits moves *backwards* by 2^31 - 7 - 2^32 bits instead (the sum 2^31 wraps to
-    -2^31 when converted to `int`); at 2^31 - 8 bits the law still holds. -/
-theorem C03_bit_advance_narrowing_witness :
-    (bit_advance 0 7 2147483641).1 * 8 + (bit_advance 0 7 2147483641).2 ≠ 0 * 8 + 7 + 2147483641
-    ∧ (bit_advance 0 7 2147483641) = (-268435456, 0)
-    ∧ (bit_advance 0 7 2147483640).1 * 8 + (bit_advance 0 7 2147483640).2 = 0 * 8 + 7 + 2147483640 := by decide
+example : bit_advance 10 5 (-14) = (8, 7) ∧ bit_advance 0 7 2147483641 = (268435456, 0)
+    ∧ bit_advance 0 3 (-4294967299) = (-536870912, 0) := by decide
 
 /-- `++bit_range` moves by exactly the pixel size (no narrowing involved) -/
 theorem C03_bit_increment_spec (b o s : Int) (ho : 0 ≤ o) (hs : 0 ≤ s) :
@@ -435,66 +401,68 @@ theorem C03_bit_increment_spec (b o s : Int) (ho : 0 ≤ o) (hs : 0 ≤ s) :
   rw [Int.tmod_eq_emod_of_nonneg (by omega), Int.tdiv_eq_ediv_of_nonneg (by omega)]
   omega
 
-/-- bit-iterator laws from any byte / bit offset: advance then distance gives `n`, advancing back
-    returns to the start, two advances compose -- under the narrowing guard -/
-theorem C03_bit_laws (b o n m : Int) (ho : 0 ≤ o) (ho' : o < 8)
-    (hn : -2147483640 ≤ n ∧ n < 2147483640) (hm : -2147483640 ≤ m ∧ m < 2147483640)
-    (hnm : -2147483640 ≤ n + m ∧ n + m < 2147483640) :
+/-- bit-iterator laws from any byte / bit offset, for every `n`, `m`: advance then distance gives
+    `n`, advancing back returns to the start, two advances compose -/
+theorem C03_bit_laws (b o n m : Int) (ho : 0 ≤ o) (ho' : o < 8) :
     bit_distance_to b o (bit_advance b o n).1 (bit_advance b o n).2 = n
     ∧ bit_advance (bit_advance b o n).1 (bit_advance b o n).2 (-n) = (b, o)
     ∧ bit_advance (bit_advance b o n).1 (bit_advance b o n).2 m = bit_advance b o (n + m) := by
-  obtain ⟨a0, a1, a2⟩ := C03_bit_advance_spec b o n (by omega)
-  obtain ⟨c0, c1, c2⟩ := C03_bit_advance_spec b o (n + m) (by omega)
-  obtain ⟨d0, d1, d2⟩ := C03_bit_advance_spec (bit_advance b o n).1 (bit_advance b o n).2 (-n) (by omega)
-  obtain ⟨e0, e1, e2⟩ := C03_bit_advance_spec (bit_advance b o n).1 (bit_advance b o n).2 m (by omega)
+  obtain ⟨a0, a1, a2⟩ := C03_bit_advance_spec b o n
+  obtain ⟨c0, c1, c2⟩ := C03_bit_advance_spec b o (n + m)
+  obtain ⟨d0, d1, d2⟩ := C03_bit_advance_spec (bit_advance b o n).1 (bit_advance b o n).2 (-n)
+  obtain ⟨e0, e1, e2⟩ := C03_bit_advance_spec (bit_advance b o n).1 (bit_advance b o n).2 m
   refine ⟨by rw [C03_kernel_bit_distance_to]; omega, ?_, ?_⟩
   · ext <;> omega
   · ext <;> omega
 
-/-- pixel-level laws of `bit_aligned_pixel_iterator` for every pixel size `s > 0` -/
-theorem C03_bit_iterator_laws (b o k s : Int) (ho : 0 ≤ o) (ho' : o < 8) (hs : 0 < s)
-    (hfit : -2147483640 ≤ k * s ∧ k * s < 2147483640) :
+/-- pixel-level laws of `bit_aligned_pixel_iterator` for every pixel size `s > 0`: `(it+k)-it = k` -/
+theorem C03_bit_iterator_laws (b o k s : Int) (hs : 0 < s) :
     bitit_distance (bit_distance_to b o (bit_advance b o (bitit_advance_bits k s)).1 (bit_advance b o (bitit_advance_bits k s)).2) s = k := by
   simp only [C03_kernel_bitit_distance, C03_kernel_bitit_advance_bits]
-  obtain ⟨a0, a1, a2⟩ := C03_bit_advance_spec b o (k * s) (by omega)
+  obtain ⟨a0, a1, a2⟩ := C03_bit_advance_spec b o (k * s)
   have : bit_distance_to b o (bit_advance b o (k * s)).1 (bit_advance b o (k * s)).2 = k * s := by
     rw [C03_kernel_bit_distance_to]; omega
   rw [this, Int.mul_tdiv_cancel _ (by omega)]
 
 /-! ## Part B -- the model of image_view's navigation paths -/
 
-private theorem memAdvance_byte (k : Kind) (hk : k.bit = false) (p d : Int) : memAdvance k p d = p + d := by
-  unfold memAdvance; simp [hk]
-
-/-- for bit-addressed kinds `memunit_advance` is exact under the narrowing guard -/
-theorem C03_memAdvance_bit (k : Kind) (p d : Int) (hfit : -2147483640 ≤ d ∧ d < 2147483640) :
-    memAdvance k p d = p + d := by
+/-- `memunit_advance` is exact for every iterator kind (pointer add; `bit_advance` for bit iterators) -/
+theorem C03_memAdvance (k : Kind) (p d : Int) : memAdvance k p d = p + d := by
   unfold memAdvance
   by_cases hk : k.bit
   · simp only [hk, if_true]
     have h0 := Int.emod_nonneg p (show (8 : Int) ≠ 0 by decide)
     have h1 := Int.emod_lt_of_pos p (show (0 : Int) < 8 by decide)
-    obtain ⟨_, _, a2⟩ := C03_bit_advance_spec (p / 8) (p % 8) d (by omega)
+    obtain ⟨_, _, a2⟩ := C03_bit_advance_spec (p / 8) (p % 8) d
     omega
   · simp [hk]
 
-private theorem xInc_byte (k : Kind) (hk : k.bit = false) (xs p : Int) : xInc k xs p = p + xs := by
-  unfold xInc; simp [hk, memAdvance, C03_kernel_step_advance]
+private theorem xInc_eq (k : Kind) (xs p : Int) (hb : k.bit = true → k.xstep = false → xs = k.pixbits ∧ 0 ≤ k.pixbits) :
+    xInc k xs p = p + xs := by
+  unfold xInc
+  by_cases h : (k.bit && !k.xstep) = true
+  · simp only [h, if_true]
+    have hh : k.bit = true ∧ k.xstep = false := by simpa using h
+    obtain ⟨e, hp⟩ := hb hh.1 hh.2
+    have h0 := Int.emod_nonneg p (show (8 : Int) ≠ 0 by decide)
+    obtain ⟨_, _, a2⟩ := C03_bit_increment_spec (p / 8) (p % 8) k.pixbits h0 hp
+    rw [e]; omega
+  · simp only [h]; simp [C03_memAdvance, C03_kernel_step_advance]
 
-/-- **all navigation paths agree** (byte-addressed and virtual views: pointer, planar, packed,
-    step, position iterators).  For every view record (any base, any steps of either sign, padded
+/-- **all navigation paths agree**, for every iterator kind (pointer, planar, packed, step,
+    position and bit-aligned iterators).  For every view record (any base, any steps of either sign, padded
     rows), every in-range (x,y) and every reference position (cx,cy) of the cached location:
     `view(x,y)`, `row_begin(y)[x]`, `col_begin(x)[y]`, `begin()[y*w+x]`, `at(x,y)`,
     `rbegin()[w*h-1-(y*w+x)]`, `xy_at(x,y)` and `xy_at(cx,cy)[cache_location(x-cx,y-cy)]`
     all reach `base + y*ys + x*xs`. -/
-theorem C03_paths_agree (k : Kind) (hk : k.bit = false) (v : View) (x y cx cy : Int) (hr : v.InRange x y) :
+theorem C03_paths_agree (k : Kind) (v : View) (x y cx cy : Int) (hr : v.InRange x y) :
     pathCall k v x y = v.addr x y ∧ pathRow k v x y = v.addr x y ∧ pathCol k v x y = v.addr x y
     ∧ pathBegin k v x y = v.addr x y ∧ pathAt k v x y = v.addr x y ∧ pathRbegin k v x y = v.addr x y
     ∧ pathCached k v cx cy x y = v.addr x y := by
   obtain ⟨hx0, hx1, hy0, hy1⟩ := hr
   have hw : 0 < v.w := by omega
   have hw0 : v.w ≠ 0 := by omega
-  have mA := memAdvance_byte k hk
+  have mA := C03_memAdvance k
   refine ⟨?_, ?_, ?_, ?_, ?_, ?_, ?_⟩
   · simp only [pathCall, Loc.move, View.loc, mA, C03_kernel_loc_offset, View.addr]; ring
   · simp only [pathRow, xAdv, Loc.move, View.loc, mA, C03_kernel_loc_offset, C03_kernel_step_advance, View.addr]; ring
@@ -531,66 +499,41 @@ theorem C03_paths_agree (k : Kind) (hk : k.bit = false) (v : View) (x y cx cy : 
 example : (Xform.flipLR.apply { base := 0, xs := 4, ys := 16, w := 3, h := 2 }).InRange 2 1
     ∧ pathRbegin ⟨false, true, 0, false⟩ (Xform.flipLR.apply { base := 0, xs := 4, ys := 16, w := 3, h := 2 }) 2 1 = 16 := by decide
 
-/-- the same for **bit-aligned views**, under the narrowing guard: every 2-D displacement that fits
-    inside the view (plus one pixel) spans fewer than 2^31 - 8 bits -/
-theorem C03_paths_agree_bit (k : Kind) (v : View) (x y : Int) (hr : v.InRange x y)
-    (hsmall : ∀ dx dy : Int, -v.w ≤ dx → dx ≤ v.w → -v.h ≤ dy → dy ≤ v.h →
-        -2147483640 ≤ dy * v.ys + dx * v.xs ∧ dy * v.ys + dx * v.xs < 2147483640) :
-    pathCall k v x y = v.addr x y ∧ pathRow k v x y = v.addr x y ∧ pathCol k v x y = v.addr x y
-    ∧ pathBegin k v x y = v.addr x y ∧ pathAt k v x y = v.addr x y := by
-  obtain ⟨hx0, hx1, hy0, hy1⟩ := hr
-  have hw : 0 < v.w := by omega
-  have hw0 : v.w ≠ 0 := by omega
-  have s_xy := hsmall x y (by omega) (by omega) (by omega) (by omega)
-  have s_0y := hsmall 0 y (by omega) (by omega) (by omega) (by omega)
-  have s_x0 := hsmall x 0 (by omega) (by omega) (by omega) (by omega)
-  simp only [Int.zero_mul, Int.add_zero, Int.zero_add] at s_0y s_x0
-  refine ⟨?_, ?_, ?_, ?_, ?_⟩
-  · simp only [pathCall, Loc.move, View.loc, C03_kernel_loc_offset]
-    rw [C03_memAdvance_bit k _ _ s_xy]; simp only [View.addr]; try ring
-  · simp only [pathRow, xAdv, Loc.move, View.loc, C03_kernel_loc_offset, C03_kernel_step_advance, Int.zero_mul, Int.add_zero, Int.zero_add]
-    rw [C03_memAdvance_bit k _ _ s_0y, C03_memAdvance_bit k _ _ s_x0]; simp only [View.addr]; try ring
-  · simp only [pathCol, yAdv, Loc.move, View.loc, C03_kernel_loc_offset, C03_kernel_step_advance, Int.zero_mul, Int.add_zero, Int.zero_add]
-    rw [C03_memAdvance_bit k _ _ s_x0, C03_memAdvance_bit k _ _ s_0y]; simp only [View.addr]; try ring
-  · have e := C03_advance_closed (y * v.w + x) 0 0 v.w 0 0 x y hw (by omega) hw hx0 hx1 (by ring)
-    simp only [pathBegin, It.advance, View.begin, e, hw0, if_false, Loc.move, View.loc, C03_kernel_loc_offset]
-    rw [C03_memAdvance_bit k _ _ (by simpa using s_xy)]
-    simp only [View.addr]; ring
-  · have e1 := C03_advance_closed (y * v.w) 0 0 v.w 0 0 0 y hw (by omega) hw (by omega) hw (by ring)
-    have e2 := C03_advance_closed x 0 y v.w 0 0 x y hw (by omega) hw hx0 hx1 (by ring)
-    simp only [pathAt, It.advance, View.begin, e1, e2, hw0, if_false, Loc.move, View.loc, C03_kernel_loc_offset,
-      Int.zero_add, Int.sub_zero, Int.sub_self, Int.zero_mul, Int.add_zero]
-    rw [C03_memAdvance_bit k _ _ s_0y, C03_memAdvance_bit k _ _ s_x0]; simp only [View.addr]; try ring
-
-/-- a gray-2 view of 5x3 pixels starting at bit 6 with 13-bit rows satisfies the guard -/
+/-- a gray-2 view of 5x3 pixels starting at bit 6 with 13-bit rows -/
 example : pathAt ⟨true, false, 2, false⟩ { base := 6, xs := 2, ys := 13, w := 5, h := 3 } 4 2 = 6 + 2 * 13 + 4 * 2 := by decide
 
 /-- **locator move programs**: after any list of `+= / -= point`, `x() += n`, `y() += n`, `++` or `--`
     on either axis iterator, the locator is at `start + Σdy*ys + Σdx*xs` -- i.e. at the pixel
-    `xy_at(Σdx, Σdy)` reaches in one step (byte-addressed and virtual views; induction on the list) -/
-theorem C03_moves (k : Kind) (hk : k.bit = false) (l : Loc) (ms : List Move) :
+    `xy_at(Σdx, Σdy)` reaches in one step (induction on the list; every iterator kind: for a raw bit
+    iterator the x step is the pixel's bit size) -/
+theorem C03_moves (k : Kind) (l : Loc) (ms : List Move)
+    (hb : k.bit = true → k.xstep = false → l.xs = k.pixbits ∧ 0 ≤ k.pixbits) :
     (runMoves k l ms).pos = l.pos + (sumMoves ms).2 * l.ys + (sumMoves ms).1 * l.xs
     ∧ (runMoves k l ms).xs = l.xs ∧ (runMoves k l ms).ys = l.ys
     ∧ (runMoves k l ms).pos = (l.move k (sumMoves ms).1 (sumMoves ms).2).pos := by
-  have mA := memAdvance_byte k hk
-  have main : ∀ (ms : List Move) (l : Loc), (runMoves k l ms).pos = l.pos + (sumMoves ms).2 * l.ys + (sumMoves ms).1 * l.xs
+  have mA := C03_memAdvance k
+  have main : ∀ (ms : List Move) (l : Loc), (k.bit = true → k.xstep = false → l.xs = k.pixbits ∧ 0 ≤ k.pixbits) →
+      (runMoves k l ms).pos = l.pos + (sumMoves ms).2 * l.ys + (sumMoves ms).1 * l.xs
       ∧ (runMoves k l ms).xs = l.xs ∧ (runMoves k l ms).ys = l.ys := by
     intro ms
     induction ms with
-    | nil => intro l; simp [runMoves, sumMoves]
+    | nil => intro l _; simp [runMoves, sumMoves]
     | cons m ms ih =>
-      intro l
-      have h := ih (Move.run k l m)
+      intro l hl
+      have hx : ∀ p, xInc k l.xs p = p + l.xs := fun p => xInc_eq k l.xs p hl
+      have hxs : (Move.run k l m).xs = l.xs := by cases m <;> rfl
+      have h := ih (Move.run k l m) (by rw [hxs]; exact hl)
       simp only [runMoves, List.foldl_cons] at h ⊢
       obtain ⟨h1, h2, h3⟩ := h
       rw [h1, h2, h3]
       cases m <;>
-        simp only [Move.run, Loc.move, xAdv, yAdv, xInc_byte k hk, xDec, mA, C03_kernel_loc_offset, C03_kernel_step_advance, sumMoves, Move.delta, and_true] <;>
+        simp only [Move.run, Loc.move, xAdv, yAdv, hx, xDec, mA, C03_kernel_loc_offset, C03_kernel_step_advance, sumMoves, Move.delta, and_true] <;>
         ring
-  obtain ⟨h1, h2, h3⟩ := main ms l
+  obtain ⟨h1, h2, h3⟩ := main ms l hb
   refine ⟨h1, h2, h3, ?_⟩
   rw [h1]; simp only [Loc.move, mA, C03_kernel_loc_offset]; ring
 
-example : (runMoves ⟨false, false, 0, false⟩ ⟨100, 3, 40⟩ [.add 2 1, .xdec, .yadd (-3), .subm 1 (-1), .xinc]).pos = 100 + (-1) * 40 + 1 * 3 := by decide
+example : (runMoves ⟨false, false, 0, false⟩ ⟨100, 3, 40⟩ [.add 2 1, .xdec, .yadd (-3), .subm 1 (-1), .xinc]).pos = 100 + (-1) * 40 + 1 * 3
+    ∧ (runMoves ⟨true, false, 6, false⟩ ⟨5, 6, 21⟩ [.xinc, .yinc, .xdec, .add 2 (-1)]).pos = 5 + 0 * 21 + 2 * 6 := by decide
 
 end GilVerif.Props.C03
